@@ -9,6 +9,15 @@ NOTE = ("Trusted base: clang 14 front end + clang::CFG, tools/xzfacts.cc, sa/*.p
         "of the property is NOT decided (see DESIGN.md section 4).")
 
 CLAIMED = {
+ "C18": dict(
+  text="Structural clauses of tool/library agreement: write-before-fail on the finite-domain (ret-tracking) product graphs "
+       "of xzdec's and lzmadec's uncompress() (both preprocessor variants analysed as separate targets) and xz's coder_normal; "
+       "uncompress() returns normally only with LZMA_STREAM_END (lzmadec also requires no trailing garbage), read/write errors "
+       "exit with failure; xz maps errors to E_ERROR, only LZMA_UNSUPPORTED_CHECK to a warning, never downgrades the status; "
+       "provenance rules of the sparse-file optimisation (exact accounting, hole before data, tail, decompress mode, regular "
+       "file at end, O_APPEND restored); decoder flag construction. Byte equality across sinks/thread counts is NOT decided.",
+  technique="finite-domain path-sensitive reachability (edge/block cuts), dominance and provenance rules over call arguments",
+  ref="4/C18"),
  "C17": dict(
   text="Structural data-safety clauses of xz's file handling: finite-domain path-sensitive analysis of `success` through "
        "io_close with each primitive forced to fail (failed close/sync/sparse-tail write never lets io_close_src see success), "
